@@ -125,6 +125,12 @@ pub fn echo<E: FromFail>(
     if storage.get(b"fail").as_deref() == Some(name.as_bytes()) {
         return Err(E::from_fail(format!("fail:{}", name)));
     }
+    if let Some(i) = info {
+        // multitest histories: the account `failer` makes the handler it calls fail
+        if FAILER.with(|f| f.as_str() == i.sender.as_str()) {
+            return Err(E::from_fail(format!("fail:{}", name)));
+        }
+    }
     let mut a = String::from("{");
     for (i, (k, v)) in args.iter().enumerate() {
         if i > 0 {
@@ -145,6 +151,12 @@ pub fn echo<E: FromFail>(
     out.push(("addr".into(), env.contract.address.to_string()));
     out.push(("seed".into(), String::from_utf8_lossy(&storage.get(b"seed").unwrap_or_default()).to_string()));
     Ok(out)
+}
+
+thread_local! { pub static FAILER: String = MockApi::default().addr_make("failer").to_string(); }
+
+pub fn show_pairs(attrs: &[(String, String)]) -> String {
+    attrs.iter().map(|(k, v)| format!("{}={}", k, v)).collect::<Vec<_>>().join("|")
 }
 
 pub fn hex(b: &[u8]) -> String {
@@ -377,4 +389,128 @@ pub fn show_wrapper_err(e: &StdError) -> String {
         return format!("count {}", n);
     }
     "err".into()
+}
+
+// ---------------------------------------------------------------------------------------------
+// multitest histories (C12): a chain, its accounts, and canonical observations
+// ---------------------------------------------------------------------------------------------
+pub use sylvia::cw_multi_test::{AppResponse, Executor as MtExecutor};
+pub use sylvia::multitest::Proxy;
+pub type MtApp = sylvia::cw_multi_test::App;
+pub const ACCOUNTS: [&str; 4] = ["alice", "bob", "carol", "failer"];
+
+pub fn acct(name: &str) -> Addr {
+    MockApi::default().addr_make(name)
+}
+
+/// a chain seeded with 1000utok for every account
+pub fn mt_app() -> sylvia::multitest::App<MtApp> {
+    let app = sylvia::cw_multi_test::App::new(|router, _api, storage| {
+        for a in ACCOUNTS {
+            router.bank.init_balance(storage, &acct(a), vec![Coin::new(1000u128, "utok")]).unwrap();
+        }
+    });
+    sylvia::multitest::App::new(app)
+}
+
+pub fn coins_of(amount: &str) -> Vec<Coin> {
+    match amount.parse::<u128>() {
+        Ok(0) | Err(_) => vec![],
+        Ok(n) => vec![Coin::new(n, "utok")],
+    }
+}
+
+/// addresses replaced by account names / contract slots
+pub fn canon_addrs(s: &str, contracts: &[Option<Addr>]) -> String {
+    let mut out = s.to_string();
+    for (i, c) in contracts.iter().enumerate() {
+        if let Some(a) = c {
+            out = out.replace(a.as_str(), &format!("#{}", i));
+        }
+    }
+    for a in ACCOUNTS {
+        out = out.replace(acct(a).as_str(), a);
+    }
+    out
+}
+
+pub fn show_events(r: &AppResponse) -> String {
+    r.events
+        .iter()
+        .map(|e| format!("{}[{}]", e.ty, e.attributes.iter().map(|a| format!("{}={}", a.key, a.value)).collect::<Vec<_>>().join("|")))
+        .collect::<Vec<_>>()
+        .join("+")
+}
+
+pub fn show_app_resp(r: &AppResponse) -> String {
+    format!("ok events={} data={}", show_events(r), r.data.as_ref().map(|d| hex(d.as_slice())).unwrap_or_else(|| "-".into()))
+}
+
+/// chain state: every contract's info and storage, every balance
+pub fn show_chain(app: &sylvia::multitest::App<MtApp>, contracts: &[Option<Addr>]) -> String {
+    let a = app.app();
+    let mut out = vec![];
+    for (i, c) in contracts.iter().enumerate() {
+        match c {
+            None => out.push(format!("#{}:none", i)),
+            Some(addr) => {
+                let info = a.contract_data(addr);
+                let head = match info {
+                    Ok(d) => format!("code={} creator={} admin={} label={}", d.code_id, d.creator, d.admin.map(|x| x.to_string()).unwrap_or_else(|| "-".into()), hex(d.label.as_bytes())),
+                    Err(_) => "noinfo".into(),
+                };
+                let mut recs = a.dump_wasm_raw(addr);
+                recs.sort();
+                let store = recs.iter().map(|(k, v)| format!("{}={}", String::from_utf8_lossy(k), String::from_utf8_lossy(v))).collect::<Vec<_>>().join(",");
+                let bal = a.wrap().query_balance(addr, "utok").map(|c| c.amount.to_string()).unwrap_or_else(|_| "?".into());
+                out.push(format!("#{}:{} bal={} store=[{}]", i, head, bal, store));
+            }
+        }
+    }
+    for n in ACCOUNTS {
+        let bal = a.wrap().query_balance(acct(n), "utok").map(|c| c.amount.to_string()).unwrap_or_else(|_| "?".into());
+        out.push(format!("{}={}", n, bal));
+    }
+    out.join(" ")
+}
+
+pub fn set_fail(app: &sylvia::multitest::App<MtApp>, addr: &Addr, marker: &str) {
+    let mut a = app.app_mut();
+    let mut st = a.contract_storage_mut(addr);
+    if marker == "-" {
+        st.remove(b"fail");
+    } else {
+        st.set(b"fail", marker.as_bytes());
+    }
+}
+
+/// the raw operations of the chain, fed with JSON bytes
+pub fn raw_wasm(app: &sylvia::multitest::App<MtApp>, sender: &Addr, msg: WasmMsg) -> Result<AppResponse, sylvia::anyhow::Error> {
+    app.app_mut().execute(sender.clone(), msg.into())
+}
+
+pub fn raw_query(app: &sylvia::multitest::App<MtApp>, addr: &Addr, body: Vec<u8>) -> String {
+    let req: sylvia::cw_std::QueryRequest<Empty> = sylvia::cw_std::QueryRequest::Wasm(sylvia::cw_std::WasmQuery::Smart { contract_addr: addr.to_string(), msg: Binary::from(body) });
+    let bin = sylvia::cw_std::to_json_vec(&req).unwrap();
+    use sylvia::cw_std::Querier;
+    match app.raw_query(&bin) {
+        sylvia::cw_std::SystemResult::Ok(sylvia::cw_std::ContractResult::Ok(b)) => format!("ok {}", String::from_utf8_lossy(b.as_slice())),
+        sylvia::cw_std::SystemResult::Ok(sylvia::cw_std::ContractResult::Err(e)) => format!("err {}", e),
+        sylvia::cw_std::SystemResult::Err(e) => format!("err system {}", e),
+    }
+}
+
+pub fn raw_sudo(app: &sylvia::multitest::App<MtApp>, addr: &Addr, body: Vec<u8>) -> Result<AppResponse, sylvia::anyhow::Error> {
+    app.app_mut().sudo(sylvia::cw_multi_test::SudoMsg::Wasm(sylvia::cw_multi_test::WasmSudo { contract_addr: addr.clone(), message: Binary::from(body) }))
+}
+
+/// `execute_contract` strips the protobuf envelope from the data; the raw path does the same
+pub fn strip_exec_data(mut r: AppResponse) -> AppResponse {
+    r.data = r.data.and_then(|d| sylvia::cw_utils::parse_execute_response_data(d.as_slice()).ok().and_then(|x| x.data));
+    r
+}
+
+/// root cause of a chain error, canonical: the handler's own error text if there is one
+pub fn show_any_err(e: &sylvia::anyhow::Error) -> String {
+    format!("err {}", e.root_cause())
 }
